@@ -55,7 +55,7 @@ def run(tier):
     # flat AND / OR chains of 2-3 comparisons over x, y, z (pure chains take the compound fast path; mixed ones must fall back)
     kinds = list(VAL) + ["missing"]
     ops = [">", ">=", "<", "<=", "==", "!="]
-    for _ in range(2500 if quick else 40000):
+    for _ in range(2500 if quick else 150000):
         n = rng.choice([2, 2, 3])
         cols = ["x", "y", "z"][:n]
         terms = [(c, rng.choice(ops), rng.choice(list(LIT))) for c in cols]
